@@ -190,7 +190,10 @@ func (s *Session) publish(span *model.SpanContext, topic string, payload []byte,
 		msg := newMsg(topic, payload, qos)
 		s.pending[p.MessageID] = msg
 		s.pendingQueue = append(s.pendingQueue, p.MessageID)
-		client.writePacket(p)
+		// never block with the session locked: if the queue of a client
+		// that does not read is full, the message stays pending and the
+		// resend ticker delivers it later.
+		client.tryWritePacket(p)
 	} else {
 		logger.SpanErrorf(span, "publish message with qos=2 is not supported currently")
 	}
@@ -234,7 +237,7 @@ func (s *Session) doResend() {
 			p.Payload = payload
 			p.MessageID = idx
 			if client != nil {
-				client.writePacket(p)
+				client.tryWritePacket(p)
 			} else {
 				logger.SpanDebugf(nil, "session %v do resend but client is nil", s.info.ClientID)
 			}
